@@ -66,16 +66,16 @@ theorem localApply_indep (rk : Nat) (g : Rank → Rank) (en : Rank → List Nat)
 def putIndepG (e : Nat) (r : Rank) : Rank :=
   if r.numrecs < e then { r with numrecs := e, dirty := true, own := max r.own e } else { r with own := max r.own e }
 def iputG (p : Pend) (r : Rank) : Rank := { r with pending := insertPend r.pending p }
-def waitG (s : Sel) (r : Rank) : Rank :=
+def waitG (scan : Bool) (s : Sel) (r : Rank) : Rank :=
   if badSel r.pending s then r
-  else if !(marked r.pending s).isEmpty && decide (r.numrecs < litNew r s) then
-    { completeReqs r s with numrecs := litNew r s, dirty := true }
+  else if !(marked r.pending s).isEmpty && decide (r.numrecs < litNew scan r s) then
+    { completeReqs r s with numrecs := litNew scan r s, dirty := true }
   else completeReqs r s
 def waitE (s : Sel) (r : Rank) : List Nat := if badSel r.pending s then [] else markedRecs r s
 
 theorem putIndepG_id (e : Nat) (r : Rank) : (putIndepG e r).id = r.id := by unfold putIndepG; split <;> rfl
 theorem iputG_id (p : Pend) (r : Rank) : (iputG p r).id = r.id := rfl
-theorem waitG_id (s : Sel) (r : Rank) : (waitG s r).id = r.id := by
+theorem waitG_id (scan : Bool) (s : Sel) (r : Rank) : (waitG scan s r).id = r.id := by
   unfold waitG; split
   · rfl
   · split <;> rfl
@@ -104,7 +104,7 @@ theorem flatMap_filter_if (l : List Rank) (c : Rank → Bool) (f : Rank → List
     · have hp' : p x = false := by simpa using hp
       simp [hp', ih]
 
-theorem step_putIndep_eq (fx : Bool) (w : World) (rk e : Nat) :
+theorem step_putIndep_eq (fx : Fix) (w : World) (rk e : Nat) :
     step fx w (.putIndep rk e) = some (if !w.indep then w else localApply rk (putIndepG e) (fun _ => [e]) w) := by
   obtain ⟨ranks, hdr, indep, hi⟩ := w
   show (if !indep then some _ else some _) = _
@@ -115,7 +115,7 @@ theorem step_putIndep_eq (fx : Bool) (w : World) (rk e : Nat) :
     unfold localApply putIndepG
     simp only [flatMap_single]
 
-theorem step_iput_eq (fx : Bool) (w : World) (rk id : Nat) (isRec : Bool) (e vb ro : Nat) :
+theorem step_iput_eq (fx : Fix) (w : World) (rk id : Nat) (isRec : Bool) (e vb ro : Nat) :
     step fx w (.iput rk id isRec e vb ro) =
       some (localApply rk (iputG { id := id, isRec := isRec, maxRec := if isRec then e else 0, varBegin := vb, reqOff := ro })
               (fun _ => []) w) := by
@@ -124,10 +124,10 @@ theorem step_iput_eq (fx : Bool) (w : World) (rk id : Nat) (isRec : Bool) (e vb 
   rw [flatMap_nil_fun]
   rfl
 
-theorem step_wait_eq (fx : Bool) (w : World) (rk : Nat) (s : Sel) :
-    step fx w (.wait rk s) = some (if !w.indep then w else localApply rk (waitG s) (waitE s) w) := by
+theorem step_wait_eq (fx : Fix) (w : World) (rk : Nat) (s : Sel) :
+    step fx w (.wait rk s) = some (if !w.indep then w else localApply rk (waitG fx.waitScan s) (waitE s) w) := by
   obtain ⟨ranks, hdr, indep, hi⟩ := w
-  show stepWait _ rk s = _
+  show stepWait fx.waitScan _ rk s = _
   unfold stepWait
   cases indep with
   | false => rfl
@@ -139,10 +139,10 @@ theorem step_wait_eq (fx : Bool) (w : World) (rk : Nat) (s : Sel) :
       flatMap_filter_if ranks (fun r => badSel r.pending s) (fun r => markedRecs r s) (fun r => r.id == rk)
     have hranks : (ranks.map fun r =>
           if r.id == rk && !badSel r.pending s then
-            (if !(marked r.pending s).isEmpty && decide (r.numrecs < litNew r s) then
-               { completeReqs r s with numrecs := litNew r s, dirty := true }
+            (if !(marked r.pending s).isEmpty && decide (r.numrecs < litNew fx.waitScan r s) then
+               { completeReqs r s with numrecs := litNew fx.waitScan r s, dirty := true }
              else completeReqs r s)
-          else r) = ranks.map fun r => if r.id == rk then waitG s r else r := by
+          else r) = ranks.map fun r => if r.id == rk then waitG fx.waitScan s r else r := by
       apply List.map_congr_left
       intro r _
       unfold waitG
